@@ -66,7 +66,8 @@ def make_v4(rng, T=8, F=6, n_ants=2, shuffle_bls=True, chunks=None, store_dir=No
             missing=None, preselect=None, open_kwargs=None, sync_time=1600000000.0, first_timestamp=128.0,
             int_time=2.0, center_freq=1284e6, bandwidth=None, need_weights_power_scale=False,
             cbid='1234567890', stream='sdp_l0', l1_flags=None, upgrade_flags=True, obs_params=None,
-            pols='hv', sub_product='c856M4k', sub_pool_resources=None, van_vleck='off', seed=None):
+            pols='hv', sub_product='c856M4k', sub_pool_resources=None, van_vleck='off', seed=None,
+            rdb_path=None):
     """Build telstate + store + open the data set.  See module docstring."""
     syn = V4Synth()
     corrprods = default_corrprods(n_ants, rng, shuffle_bls, pols)
@@ -157,15 +158,27 @@ def make_v4(rng, T=8, F=6, n_ants=2, shuffle_bls=True, chunks=None, store_dir=No
             import os
             cname, _ = store.chunk_metadata(name, slices)
             os.remove(os.path.join(store.path, cname + '.npy'))
-    view, cbid_out, sn = view_l0_capture_stream(telstate, cbid, stream)
-    src_kwargs = dict(chunk_store=store, upgrade_flags=upgrade_flags, van_vleck=van_vleck)
-    if preselect is not None:
-        src_kwargs['preselect'] = preselect
-    source = TelstateDataSource(view, cbid_out, sn, **src_kwargs)
     ok = dict(open_kwargs or {})
     if preselect is not None:
         ok['preselect'] = preselect
-    syn.dataset = VisibilityDataV4(source, **ok)
+    if rdb_path is not None:
+        # the full public path: write an RDB file and go through katdal.open (needs an NPY store)
+        import katdal
+        from katsdptelstate.rdb_writer import RDBWriter
+        telstate['capture_block_id'] = cbid
+        telstate['stream_name'] = stream
+        with RDBWriter(rdb_path) as writer:
+            writer.save(telstate)
+        syn.dataset = katdal.open(rdb_path, npy_store_path=store_dir, upgrade_flags=upgrade_flags,
+                                  van_vleck=van_vleck, **ok)
+        source = syn.dataset.source
+    else:
+        view, cbid_out, sn = view_l0_capture_stream(telstate, cbid, stream)
+        src_kwargs = dict(chunk_store=store, upgrade_flags=upgrade_flags, van_vleck=van_vleck)
+        if preselect is not None:
+            src_kwargs['preselect'] = preselect
+        source = TelstateDataSource(view, cbid_out, sn, **src_kwargs)
+        syn.dataset = VisibilityDataV4(source, **ok)
     syn.source = source
     syn.stored = stored
     syn.telstate, syn.store, syn.cbid, syn.stream = telstate, store, cbid, stream
